@@ -49,9 +49,10 @@ def requests_for(r, group, n, dbg, storages=("o",), norm="valid", ops=None):
     for op in (ops or allops):
         if op in ("rotation", "normalize") and group in NO_ROTATION:
             continue
-        for _ in range(n):
+        moff = r.randrange(MASKS.get(op, 1))
+        for k in range(n):
             st = r.choice(storages)
-            mask = r.randrange(MASKS.get(op, 1))
+            mask = (moff + k) % MASKS.get(op, 1)      # every output combination as soon as n allows
             if op == "generator":
                 i = r.randint(-3, gen.GROUPS[group]["dof"] + 3)
                 out.append((gen.req(dbg, st, group, op, 0, [], [i]), [op, "mask0", st, "idx:%d" % i]))
